@@ -763,6 +763,10 @@ def set_typed_names(fnode):
 SET_ATTRS = set()      # attribute names assigned a set somewhere in the package (`self.edgeset = set()`)
 
 
+def is_keys_view(e):
+    return isinstance(e, ast.Call) and isinstance(e.func, ast.Attribute) and e.func.attr in ("keys", "items") and not e.args
+
+
 def is_set_expr(e, setnames=()):
     if isinstance(e, (ast.Set, ast.SetComp)):
         return True
@@ -776,7 +780,9 @@ def is_set_expr(e, setnames=()):
     if isinstance(e, ast.Name) and e.id in setnames:
         return True
     if isinstance(e, ast.BinOp) and isinstance(e.op, (ast.BitOr, ast.BitAnd, ast.Sub, ast.BitXor)):
-        return is_set_expr(e.left, setnames) or is_set_expr(e.right, setnames)
+        # set algebra; on dictionary views (`a.keys() & b.keys()`) it produces a set as well
+        return is_set_expr(e.left, setnames) or is_set_expr(e.right, setnames) or \
+            is_keys_view(e.left) or is_keys_view(e.right)
     if isinstance(e, ast.Call) and isinstance(e.func, ast.Attribute) and \
             e.func.attr in ("union", "intersection", "difference", "symmetric_difference") and \
             is_set_expr(e.func.value, setnames):
